@@ -41,7 +41,7 @@ MINIMUMS = {
     'quick': {'evaluations': 2500, 'dump_accepted': 1500, 'roundtrips_equal': 1400, 'hostile_docs': 400,
               'policy_refusals_observed': 300, 'leaf:bytes': 300, 'leaf:special-float': 100,
               'leaf:set': 100, 'symbols_checked_against_policy': 5000},
-    'thorough': {'evaluations': 80000, 'dump_accepted': 50000, 'hostile_docs': 15000},
+    'thorough': {'evaluations': 60000, 'dump_accepted': 40000, 'hostile_docs': 10000},
 }
 
 FNS = [kinds.node, kinds.node2, kinds.posnode, kinds.two, kinds.three, kinds.Base, kinds.Mid,
